@@ -154,7 +154,7 @@ def sources(ctx, plan):
     return out
 
 
-def record_corpus(ctx, srcs, levels, only_targets=None):
+def record_corpus(ctx, srcs, levels, only_targets=None, steps_every=1):
     """Compile every source for every target of its profile; returns [(key, record, source)]."""
     import logging
 
@@ -162,7 +162,8 @@ def record_corpus(ctx, srcs, levels, only_targets=None):
     out = []
     skipped = ctx.cov.setdefault("codegen_rejected_by_target", {})
     compiled = ctx.cov.setdefault("compiled_by_target", {})
-    for key, kind, payload, targets in srcs:
+    for sn, (key, kind, payload, targets) in enumerate(srcs):
+        want_steps = steps_every > 0 and sn % steps_every == 0
         for march in targets:
             if only_targets is not None and march not in only_targets:
                 continue
@@ -171,7 +172,7 @@ def record_corpus(ctx, srcs, levels, only_targets=None):
                 got = []
                 try:
                     # a changed tree may loop forever: time-limited
-                    def run(kind=kind, payload=payload, march=march, level=level, got=got):
+                    def run(kind=kind, payload=payload, march=march, level=level, got=got, want_steps=want_steps):
                         from ppci import api
 
                         from harness import irgen
@@ -182,7 +183,7 @@ def record_corpus(ctx, srcs, levels, only_targets=None):
                             m, _ = irgen.gen_module(random.Random(payload[0]), types=payload[1])
                         if level != "0":
                             api.optimize(m, level=level)
-                        with regalloc_trace.recording(got.append):
+                        with regalloc_trace.recording(got.append, steps=want_steps):
                             api.ir_to_object([m], march)
 
                     watchdog.limited(run, 60.0, what="c06compile")
@@ -355,8 +356,10 @@ def controls(payload):
     out = []
     count = {"colour": 0, "move": 0, "slot": 0}
     archs = payload["archs"]
-    for c in payload["cases"]:
+    for c in sorted(payload["cases"], key=lambda c: len(c["W"])):   # short cases: short error traces
         np_ = archs[c["arch"] - 1]["np"]
+        if len(c["W"]) < 12:
+            continue
         if c["mode"] == "colour":
             col = c["colour"]
             if count["colour"] < 4:
@@ -392,7 +395,151 @@ def controls(payload):
     return out
 
 
-CONTROL_CLAUSES = {"colour": {"ReadsSeeLatestDef", "NoSharing"}, "move": {"CoalescedSameLoc"},
+IRC_CFG = """CONSTANTS
+ MinN = %d
+ MaxN = %d
+ MaxPre = %d
+ MaxMoves = %d
+ Arch = "%s"
+ FreeOrder = %s
+ AnyRegister = %s
+ AnyPop = %s
+INIT Init
+NEXT Next
+CHECK_DEADLOCK FALSE
+INVARIANT InvNoException
+INVARIANT InvWorklists
+INVARIANT InvMovesPartition
+INVARIANT InvNodesPartition
+INVARIANT InvCacheCoherent
+INVARIANT InvMovesLinked
+INVARIANT InvEdgesPreserved
+INVARIANT InvProperColouring
+INVARIANT InvClassRespected
+INVARIANT InvComplete
+"""
+# (MinN, MaxN, MaxPre, MaxMoves, Arch, FreeOrder, AnyRegister, AnyPop)
+IRC_QUICK = [(4, 4, 0, 1, "k2", "FALSE", "FALSE", "FALSE")]
+IRC_THOROUGH = [(1, 3, 1, 2, "k2", "TRUE", "TRUE", "TRUE"),       # every schedule, any work-list order
+                (4, 4, 1, 2, "k2", "FALSE", "FALSE", "FALSE"),    # all 4-node graphs, one schedule each
+                (1, 3, 2, 2, "pair", "FALSE", "TRUE", "TRUE"),    # aliasing classes (pq-test), every schedule
+                (4, 4, 0, 1, "k3", "FALSE", "TRUE", "TRUE")]
+
+IRC_TRACE_CFG = """INIT Init
+NEXT Next
+CHECK_DEADLOCK FALSE
+INVARIANT TraceConforms
+INVARIANT InitConforms
+INVARIANT StepConforms
+INVARIANT NoCodeException
+INVARIANT TInvWorklists
+INVARIANT TInvMovesPartition
+INVARIANT TInvNodesPartition
+INVARIANT TInvCacheCoherent
+INVARIANT TInvEdgesPreserved
+INVARIANT TInvProperColouring
+"""
+IRC_MAX_NODES = 70
+IRC_MAX_STEPS = 600
+
+
+def irc_cases(ctx, recs):
+    """One IRC_Trace case per allocation round that was recorded with steps (pure renumbering)."""
+    cases, meta = [], []
+    for key, rec, src in recs:
+        if not rec["ok"]:
+            continue
+        for k, g in enumerate(rec.get("graphs", [])):
+            steps = rec["steps"][k] if k < len(rec["steps"]) else []
+            if "exc" in g or not steps:
+                continue
+            if len(g["nodes"]) > IRC_MAX_NODES or len(steps) > IRC_MAX_STEPS:
+                ctx.cov["irc_rounds_too_large"] = ctx.cov.get("irc_rounds_too_large", 0) + 1
+                continue
+            nids = sorted(n[0] for n in g["nodes"])
+            nx = {n: i + 1 for i, n in enumerate(nids)}
+            byid = {n[0]: n for n in g["nodes"]}
+            rids = set()
+            for c in g["classes"]:
+                rids |= set(c["regs"])
+            for r, al in g["alias"].items():
+                rids.add(int(r))
+                rids |= set(al)
+            rids |= {n[2] for n in g["nodes"] if n[2]}
+            rlist = sorted(rids)
+            rx = {r: i + 1 for i, r in enumerate(rlist)}
+            mx = {m[0]: i + 1 for i, m in enumerate(g["moves"])}
+
+            def proj(p):
+                return {"simplify": [nx.get(x, 0) for x in p["simplify"]], "freeze": [nx.get(x, 0) for x in p["freeze"]],
+                        "spill": [nx.get(x, 0) for x in p["spill"]], "stack": [nx.get(x, 0) for x in p["stack"]],
+                        "wl": [mx.get(x, 0) for x in p["wl"]], "active": [mx.get(x, 0) for x in p["active"]],
+                        "coalesced": [mx.get(x, 0) for x in p["coalesced"]],
+                        "constrained": [mx.get(x, 0) for x in p["constrained"]], "frozen": [mx.get(x, 0) for x in p["frozen"]]}
+
+            inst = {"N": len(nids), "cls": [byid[n][1] for n in nids], "pre": [rx.get(byid[n][2], 0) for n in nids],
+                    "E": [[nx[a], nx[b]] for a, b in g["edges"]], "M": [[nx[m[1]], nx[m[2]]] for m in g["moves"]],
+                    "R": len(rlist), "cregs": [[rx[r] for r in c["regs"]] for c in g["classes"]],
+                    "ali": [[rx[q] for q in g["alias"].get(str(r), [r])] for r in rlist], "sub": g["sub"]}
+            evs = []
+            usable = True
+            for ev in steps:
+                if "exc" in ev:
+                    usable = False
+                    break
+                e = {"ev": ev["ev"], "x": 0, "post": proj(ev["post"]), "assign": [], "spilled": []}
+                if ev["ev"] == "coalesc":
+                    e["x"] = mx.get(ev["x"], 0)
+                elif ev["ev"] == "assign_colors":
+                    e["assign"] = [[nx.get(a, 0), rx.get(r, 0)] for a, r in ev["assign"]]
+                    e["spilled"] = [nx.get(a, 0) for a in ev["spilled"]]
+                else:
+                    e["x"] = nx.get(ev["x"], 0)
+                evs.append(e)
+            if not usable:
+                ctx.cov["irc_rounds_unrecorded"] = ctx.cov.get("irc_rounds_unrecorded", 0) + 1
+                continue
+            ck = "%s:round%d" % (key, k + 1)
+            cases.append({"key": ck, "inst": inst, "init": proj(g["init"]), "steps": evs})
+            meta.append((ck, rec, src, k))
+    return cases, meta
+
+
+def judge_irc(ctx, cases, meta, workers=8):
+    """Replay recorded allocator steps into IRC.tla (IRC_Trace)."""
+    import os
+
+    if not cases:
+        return None
+    path = ctx.trace_file(cases, name="irc.json")
+    res = ctx.tlc("IRC_Trace", IRC_TRACE_CFG, label="allocator steps", env={"TRACE_FILE": path}, continue_=True,
+                  workers=workers, heap="12g")
+    os.unlink(path)
+    ctx.cov["traces_validated_against_impl"] += len(cases)
+    ctx.cov["irc_rounds_replayed"] = ctx.cov.get("irc_rounds_replayed", 0) + len(cases)
+    ctx.cov["irc_steps_replayed"] = ctx.cov.get("irc_steps_replayed", 0) + sum(len(c["steps"]) for c in cases)
+    seen = set()
+    for e in res.errors:
+        st = e.last
+        f, l = st.get("f"), st.get("l")
+        if e.kind != "invariant" or not isinstance(f, int) or f < 1 or f > len(cases):
+            raise MachineryError("unexpected TLC error in IRC_Trace run: %s\n%s" % (e, e.text[:1500]))
+        m = meta[f - 1]
+        vkey = "%s:steps:%s" % (m[0], e.name)
+        if vkey in seen:
+            continue
+        seen.add(vkey)
+        step = cases[f - 1]["steps"][l - 1] if isinstance(l, int) and 1 <= l <= len(cases[f - 1]["steps"]) else None
+        ctx.violation(vkey, "allocator work-list run of %s (%s) leaves IRC.tla at step %s (%s): %s [%s]" % (
+            m[1]["fn"], m[1]["arch"], l, step and step["ev"], st.get("why") or "state differs from the model", e.name),
+            {"key": m[0], "source": m[2], "clause": e.name, "irc_case": cases[f - 1],
+             "state": {k: str(v)[:800] for k, v in st.items() if k != "inst"}})
+    return res
+
+
+# clauses by which a control may be rejected (a changed colour also breaks the legality of a
+# coalesced move that was deleted, which is met first on some paths)
+CONTROL_CLAUSES = {"colour": {"ReadsSeeLatestDef", "NoSharing", "CoalescedSameLoc"}, "move": {"CoalescedSameLoc"},
                    "slot": {"ReadsSeeLatestDef"}}
 
 
@@ -458,7 +605,12 @@ class Engine:
 
     def run(self, ctx):
         thorough = ctx.tier == "thorough"
-        ctx.rule("M: AllocCheck_MC — every program of <= MaxLen instructions over 2 virtual + 3 machine names (one "
+        ctx.rule("M: IRC_MC — the work-list machine of GraphColoringRegisterAllocator (IRC.tla: simplify / coalesce with "
+                 "George and Briggs tests and the pq measure / freeze / select spill / assign colours) on every interference "
+                 "graph with 4 nodes x <=1 move x K=2 (thorough: + pre-coloured nodes, 2 moves, K=3, the aliasing register "
+                 "pair classes, every pop() choice, any work-list order): Appel's work-list invariants, cache coherence of "
+                 "_num_blocked, no lost interference edge, no exception, proper alias-aware colouring. "
+                 "AllocCheck_MC — every program of <= MaxLen instructions over 2 virtual + 3 machine names (one "
                  "aliasing pair) x every colouring: a colouring proper w.r.t. the interference relation is accepted on "
                  "all paths, data-flow liveness = path liveness, improper colourings are rejected (witness runs). "
                  "T: every alloc_frame performed while generated C (harness/absprog.py, register-pressure generator) "
@@ -478,8 +630,11 @@ class Engine:
         else:
             plan = {"w64": (2, 5, 3), "w32": (1, 2, 1), "w32only": (1, 1, 1), "w16": (1, 1, 1)}
             levels = ("2",)
-        recs = record_corpus(ctx, sources(ctx, plan), levels)
+        recs = record_corpus(ctx, sources(ctx, plan), levels, steps_every=1 if thorough else 2)
         self.check_records(ctx, recs)
+        for part in core.chunks(recs, 400):
+            cases, meta = irc_cases(ctx, part)
+            judge_irc(ctx, cases, meta)
 
     def check_records(self, ctx, recs):
         batch = 400
@@ -499,7 +654,14 @@ class Engine:
         ctx.cov["spill_rewrites"] = ctx.cov.get("spill_rewrites", 0) + nspill
 
     def model_check(self, ctx, thorough):
-        maxlen, menu = (3, "small") if thorough else (2, "full")
+        # design level: the allocator's work-list algorithm (IRC.tla) on all small interference graphs
+        for cfg in (IRC_THOROUGH if thorough else IRC_QUICK):
+            res = ctx.tlc("IRC_MC", IRC_CFG % cfg, label="IRC %s N=%d..%d pre<=%d moves<=%d" % (cfg[4], cfg[0], cfg[1], cfg[2], cfg[3]),
+                          workers=8)
+            for e in res.errors:
+                raise MachineryError("IRC.tla (model of GraphColoringRegisterAllocator) violates %s on a small graph: "
+                                     "%s\n%s" % (e.name, e, e.text[:3000]))
+        maxlen, menu = (3, "small") if thorough else (2, "small")
         res = ctx.tlc("AllocCheck_MC", MC_CFG % (maxlen, menu), label="AllocCheck self-test", workers=8)
         for e in res.errors:
             raise MachineryError("AllocCheck self-test fails in the specification itself: %s\n%s" % (e, e.text[:1500]))
